@@ -2008,6 +2008,12 @@ def _b_getattr(interp, args, kwargs, node):
         if len(args) > 2:
             return args[2]
         raise PyRaise(ExcVal("AttributeError", (name,), origin=f"getattr@{node.lineno}"))
+    if isinstance(obj, ExcVal):
+        if name in obj.attrs:
+            return obj.attrs[name]
+        if len(args) > 2:
+            return args[2]
+        raise PyRaise(ExcVal("AttributeError", (name,), origin=f"getattr@{node.lineno}"))
     raise Unsupported("getattr on non-record", node)
 
 
